@@ -417,8 +417,9 @@ structure Regime (file : List Nat) (crs ncols : Nat) (hrow : List Cell) (rows : 
   crsPos : 0 < crs
   reg : ∀ l ∈ hrow :: rows, (renderCells l).length ≤ crs * Gen.Csv.CHUNK_ROW_FACTOR * ncols
 
-/-- **regrowth_count_logarithmic.** `need b t` — the number of times a buffer of size `b` is doubled before it exceeds `t` —
-    satisfies `b · 2^(need b t − 1) ≤ t`: at most `log₂ (t / b) + 1` regrowths. `regrowthBound rows ncols offs maxrow` is
+/-- **regrowth_count_logarithmic.** `need b t` — the number of times a buffer of size `b` is enlarged (multiplied by the
+    driver's `larger_factor`, regenerated from the source and checked to be ≥ 2) before it exceeds `t` — satisfies
+    `b · 2^(need b t − 1) ≤ t`: at most `log₂ (t / b) + 1` regrowths. `regrowthBound rows ncols offs maxrow` is
     `need maxrow |rows|` (index buffer) plus, for every column `c`, `need (budget c) (bytes of column c)`. -/
 theorem regrowth_count_logarithmic (b t : Nat) (h : 0 < need b t) : b * 2 ^ (need b t - 1) ≤ t :=
   need_pow t (t + 1 - b) b (Nat.le_refl _) h
